@@ -623,3 +623,39 @@ def forced_read_looks_at_the_cache_after_the_reply(ctx):
         ctx.check(ok, f'{f.qualname}:the cache is read after the request', r, 'dominated by self.request(...)',
                   f'`{src(r)}` can be evaluated before the request was made: the entry is the one from BEFORE the reply - an error reply is compared with the stale '
                   'entry, taken for "not yet announced" and announced a second time (callbacks twice per message, local time stamp in the cache)', f)
+
+
+@rule('C12.R11', min_instances=1)
+def unregistering_cancels_one_registration(ctx):
+    """ProxyClient.unregister_callback: a function that was registered twice (two widgets sharing one bound method that
+    compares equal, a double registration) has to be unregistered twice - one call takes ONE element out of the list
+    (`list.remove`, or a deletion by position that stops after the first).  A loop that deletes every position found, or a
+    rebuilt list without all equal elements, cancels the other registrations too: their owner silently gets no more updates"""
+    m = ctx.m
+    f = m.method('frappy.client.ProxyClient', 'unregister_callback', inherited=False)
+    ctx.analysed(f)
+    n = 0
+    for d in [x for x in body_walk(f.node) if isinstance(x, ast.Delete) and any(isinstance(t, ast.Subscript) for t in x.targets)]:
+        loop = next((a for a in ancestors(d) if isinstance(a, (ast.For, ast.While))), None)
+        if loop is None or not isinstance(loop, ast.For):
+            continue
+        # only loops over positions / elements of one callback list (not the outer loop over the callback names)
+        if not any(isinstance(t, ast.Subscript) and isinstance(t.slice, ast.Name) and isinstance(loop.target, ast.Name) and t.slice.id == loop.target.id for t in d.targets):
+            continue
+        n += 1
+        it = loop.iter
+        one = isinstance(it, ast.Subscript) and isinstance(it.slice, ast.Slice) and it.slice.lower is None and isinstance(it.slice.upper, ast.Constant) \
+            and it.slice.upper.value == 1
+        idx = loop.body.index(next(b for b in loop.body if any(x is d for x in ast.walk(b))))
+        stops = any(isinstance(b, (ast.Break, ast.Return)) for b in loop.body[idx + 1:])
+        ctx.check(one or stops, f'{f.qualname}:one call removes one registration', d, 'the deletion by position happens once per call',
+                  f'`for {src(loop.target)} in {src(it)}: {src(d)}` deletes EVERY position at which an equal function is registered: a function registered '
+                  'twice (or two equal bound methods) is cancelled completely by one unregister call', f)
+    for c in calls_in(f.node):
+        if call_attr(c) == 'remove':
+            n += 1
+            loop = next((a for a in ancestors(c) if isinstance(a, ast.While)), None)
+            ctx.check(loop is None or 'in ' not in src(loop.test), f'{f.qualname}:one call removes one registration', c, f'`{src(c)}` takes out the first equal element only',
+                      f'`while {src(loop.test) if loop else ""}: {src(c)}` removes every equal element', f)
+    if not n:
+        ctx.undecided(f'{f.qualname}:one call removes one registration', f.node, 'no list.remove / deletion by position found', f)
